@@ -145,6 +145,9 @@ func c06(run *core.Run, replay string) {
 		// its first buffer from the hint and must grow it whatever the Write partition is
 		{"hint-small-512k", kz.Cfg{Transform: "NONE", Entropy: "NONE", BlockSize: 512 << 10, Jobs: 1, Checksum: 32, Hint: 100000}, "text", 1300000, S},
 		{"hint-tiny-1m", kz.Cfg{Transform: "LZ", Entropy: "HUFFMAN", BlockSize: 1 << 20, Jobs: 3, Checksum: 0, Hint: 1000}, "html", 2500000, S},
+		// header size field smaller than the content and equal to a whole number of blocks / batches
+		{"hint-understated-aligned", kz.Cfg{Transform: "NONE", Entropy: "NONE", BlockSize: 4096, Jobs: 1, Checksum: 32, Hint: 8192}, "text", 20603, S},
+		{"hint-understated-aligned-lz", kz.Cfg{Transform: "LZ", Entropy: "HUFFMAN", BlockSize: 16384, Jobs: 2, Checksum: 0, Hint: 32768}, "html", 100000, S},
 		{"hint-300k-256k", kz.Cfg{Transform: "RLT", Entropy: "NONE", BlockSize: 262144, Jobs: 2, Checksum: 64, Hint: 250000}, "random", 900000, S},
 	}
 	chunks := []int{1, 2, 3, 5, 7, 8, 9, 13, 64, 1000, 4095, 4096, 4097, 65535, 65536, 65537, 262143, 262144, 262145}
@@ -168,7 +171,7 @@ func c06(run *core.Run, replay string) {
 		for k := 0; k < nrand; k++ {
 			cases = append(cases, &ioCase{R: recs[ri], Mode: "source", Pattern: "random", Jobs: uint(1 + k%4), Seed: S*1000 + int64(k)})
 		}
-		for k, sz := range [][]int{{1}, {0, 1}, {7, 0, 300}, {4095, 4097}, {1024}, {1 << 20}, {3, 65536, 1, 0, 100000}} {
+		for k, sz := range [][]int{{1}, {0, 1}, {7, 0, 300}, {4095, 4097}, {1024}, {1 << 20}, {3, 65536, 1, 0, 100000}, {int(recs[ri].Cfg.BlockSize)}, {2 * int(recs[ri].Cfg.BlockSize), 1 << 20}, {16384}} {
 			if len(sz) == 1 && sz[0] == 1 && recs[ri].Size > 400000 {
 				continue
 			}
